@@ -438,3 +438,63 @@ mod test {
         );
     }
 }
+
+#[cfg(feature = "verif-hooks")]
+pub(crate) mod verif_local {
+    use super::*;
+
+    fn r(p: (usize, usize)) -> Range {
+        Range::new(p.0, p.1)
+    }
+
+    pub(crate) fn is_empty(a: (usize, usize)) -> bool {
+        r(a).is_empty()
+    }
+
+    pub(crate) fn contains(a: (usize, usize), b: (usize, usize)) -> bool {
+        r(a).contains(r(b))
+    }
+
+    pub(crate) fn intersects(a: (usize, usize), b: (usize, usize)) -> bool {
+        r(a).intersects(r(b))
+    }
+
+    pub(crate) fn adjacent_to(a: (usize, usize), b: (usize, usize)) -> bool {
+        r(a).adjacent_to(r(b))
+    }
+
+    pub(crate) fn merge(a: (usize, usize), b: (usize, usize)) -> Option<(usize, usize)> {
+        r(a).merge(r(b)).map(|m| (m.lo, m.hi))
+    }
+
+    /// `ranges.sort()` with the derived `Ord`.
+    pub(crate) fn sort(v: &[(usize, usize)]) -> Vec<(usize, usize)> {
+        let mut v: Vec<Range> = v.iter().map(|p| r(*p)).collect();
+        v.sort();
+        v.into_iter().map(|x| (x.lo, x.hi)).collect()
+    }
+
+    /// `normalize_ranges` on a map with the single key `stdin`.
+    pub(crate) fn normalize(v: &[(usize, usize)]) -> Vec<(usize, usize)> {
+        let mut m = HashMap::new();
+        m.insert(FileName::Stdin, v.iter().map(|p| r(*p)).collect::<Vec<_>>());
+        normalize_ranges(&mut m);
+        m[&FileName::Stdin].iter().map(|x| (x.lo, x.hi)).collect()
+    }
+
+    /// `FileLines::from_ranges` on `{stdin: v}`, or on the empty map.
+    pub(crate) fn from_ranges(v: Option<&[(usize, usize)]>) -> FileLines {
+        let mut m = HashMap::new();
+        if let Some(v) = v {
+            m.insert(FileName::Stdin, v.iter().map(|p| r(*p)).collect::<Vec<_>>());
+        }
+        FileLines::from_ranges(m)
+    }
+
+    /// The normalised ranges a `FileLines` holds for stdin.
+    pub(crate) fn stdin_ranges(fl: &FileLines) -> Option<Vec<(usize, usize)>> {
+        fl.0.as_ref()
+            .and_then(|m| m.get(&FileName::Stdin))
+            .map(|v| v.iter().map(|x| (x.lo, x.hi)).collect())
+    }
+}
